@@ -32,7 +32,7 @@ PROPS["C07"] = dict(
                "directions' is asserted), what advance_sequence does to a buffered segment straddling the target (cannot occur with the generated applications). Recovery windows are "
                "read modulo 2^32 like every other TCP sequence comparison; connections where the engine's plain unsigned reading differs get the key discriminator "
                "/recovery-seq-wrap on their data-dependent checks (fixes/C07-2.md), are reported once and then only lifetime-checked.",
-    phases=[dict(name="main", harness="c07.cpp", flavor="asan", mode="random", cases=dict(quick=4000, thorough=150000))],
+    phases=[dict(name="main", harness="c07.cpp", flavor="asan", mode="random", cases=dict(quick=4000, thorough=40000))],
     rule="case = (follower configuration: attach on/off, ack tracking on/off, keep-alive; set of connection scripts with distinct 4-tuples derived adversarially from each other; "
          "per-script packet list; timestamps = interleaving); distinct = distinct ordered packet sequence (endpoints, flags, seq, len) + configuration; non-trivial = at least one packet, "
          "every packet is followed by the full trace/state comparison",
